@@ -13,6 +13,8 @@ import Vegeta.Proofs.CodecRFC3339
 import Vegeta.Proofs.SpecJSON
 import Vegeta.Proofs.StreamCut
 import Vegeta.Proofs.GobValueResult
+import Vegeta.Proofs.EqualLaws
+import Vegeta.Proofs.EncodeCmdCut
 import Vegeta.Extracted.Facts
 namespace Vegeta.Props.C07
 open Vegeta.Go Vegeta.Model.Codec Vegeta.Proofs.Codec
@@ -244,6 +246,100 @@ theorem gob_roundtrip_any_key_order (z : Zone) (hz : ZoneOK z) (r : Result) (h h
   exact headerEqual_of_perm h' h hp hn
 
 end Gob
+
+/-! ### `Result.Equal` / `headerEqual` as a relation (Proofs/EqualLaws.lean) -/
+
+section EqualLaws
+open Vegeta.Model.EncodeCmd Vegeta.Proofs.EncodeCmd
+
+/-- **`Equal` looks at every field**: two results are `Equal` iff all scalar fields agree, the bodies are the
+same byte string (nil = empty) and `headerEqual` holds; so a difference in any one field makes them unequal -/
+theorem equal_field_by_field (a b : Result) : a.equal b = true ↔
+    (a.attack = b.attack ∧ a.seq = b.seq ∧ a.code = b.code ∧ a.timestamp = b.timestamp ∧ a.latency = b.latency ∧
+     a.bytesIn = b.bytesIn ∧ a.bytesOut = b.bytesOut ∧ a.error = b.error ∧ a.body.getD [] = b.body.getD [] ∧
+     a.method = b.method ∧ a.url = b.url ∧ headerEqual a.headers b.headers = true) := equal_iff a b
+
+/-- **value lists are compared element by element**: non-nil maps are equal iff they have the same number of
+keys and every key of the first has exactly the same value list in the second -/
+theorem header_equal_elementwise (h1 h2 : Header) :
+    headerEqual (some h1) (some h2) = true ↔ h1.length = h2.length ∧ ∀ kv ∈ h1, headerGet h2 kv.1 = kv.2 :=
+  headerEqual_iff h1 h2
+
+/-- a nil header map equals only a nil one (nil ≠ empty); nil and empty bodies are equal -/
+theorem equal_nil_vs_empty (r : Result) (h : HeadersOK r.headers) (hm : Header) :
+    headerEqual none none = true ∧ headerEqual none (some hm) = false ∧ headerEqual (some hm) none = false ∧
+    ({ r with headers := none } : Result).equal { r with headers := some [] } = false ∧
+    ({ r with body := none } : Result).equal { r with body := some [] } = true ∧
+    ({ r with body := some [] } : Result).equal { r with body := none } = true :=
+  ⟨(headerEqual_nil hm).1, (headerEqual_nil hm).2.1, (headerEqual_nil hm).2.2, (equal_headers_nil_empty r).1,
+   (equal_body_nil_empty r h).1, (equal_body_nil_empty r h).2⟩
+
+/-- reflexive on Go maps (distinct keys) -/
+theorem equal_reflexive (r : Result) (h : HeadersOK r.headers) : r.equal r = true := equal_refl r h
+
+/-- symmetric on header maps as net/http yields them (distinct keys, every key with at least one value) -/
+theorem equal_symmetric (a b : Result) (ha : HeadersOK a.headers) (hb : HeadersOK b.headers)
+    (va : ValuesNonEmpty a.headers) (vb : ValuesNonEmpty b.headers) (h : a.equal b = true) : b.equal a = true :=
+  equal_symm a b ha hb va vb h
+
+/-- transitive, so chains of conversions compose -/
+theorem equal_transitive (a b c : Result) (va : ValuesNonEmpty a.headers) (h1 : a.equal b = true)
+    (h2 : b.equal c = true) : a.equal c = true := equal_trans a b c va h1 h2
+
+/-- **oddity of the unchanged `headerEqual`** (modelled as it is): a key with an EMPTY value list reads like a
+missing key, so `Equal` is not symmetric there — {A:[x], B:[]} "equals" {A:[x], C:[y]} but not conversely.
+Harmless for headers as net/http yields them (every key has a value); the harness's oracle avoids the corner. -/
+theorem equal_not_symmetric_with_empty_value_lists :
+    ∃ a b : Result, HeadersOK a.headers ∧ HeadersOK b.headers ∧ a.equal b = true ∧ b.equal a = false :=
+  equal_not_symmetric_witness
+
+theorem aux_headersOK_csv (r : Result) (h : ReprCSVResult r) : HeadersOK r.headers :=
+  fun x hx => ((h.headers x hx).1).1
+theorem aux_headersOK_json (r : Result) (h : ReprJSONResult r) : HeadersOK r.headers :=
+  fun x hx => (h.headers x hx).1
+
+/-- the JSON round trip restated modulo `Equal` (it returns literally the same results) -/
+theorem json_roundtrip_equal (offMin : Int) (ho : offMin.natAbs < 1440) (rs : List Result)
+    (hrs : ∀ r ∈ rs, ReprJSONResult r) :
+    ∃ s out, encodeJSONAll offMin rs = some s ∧ decodeJSON s = (out, .eof) ∧ equalAll out rs = true := by
+  obtain ⟨s, hs, hd⟩ := json_roundtrip offMin ho rs hrs
+  refine ⟨s, rs, hs, hd, ?_⟩
+  have := equalAll_decodedBy .json .json rs (fun r hr => aux_headersOK_json r (hrs r hr))
+  simpa [decodedBy] using this
+
+/-! ### The `encode` command (Model/EncodeCmd.lean): a map of per-record round trips -/
+
+theorem aux_headersOK_for (c : Codec) (z : Vegeta.Model.GobValue.Zone) (r : Result) (h : ReprFor c z r) :
+    HeadersOK r.headers := by
+  cases c with
+  | csv => exact aux_headersOK_csv r h
+  | json => exact aux_headersOK_json r h.1
+  | gob => exact fun x hx => h.1.headers x hx
+
+/-- **what `vegeta encode` writes decodes to what was read, for every from/to pair and every stream**, however
+heterogeneous (a sparse record after a full one, …): the command decodes each record into a fresh `Result` and
+encodes it before reading the next, so it is a map over the records — the output decodes to the input's
+records passed through the two decoders, which are `Equal` to the originals, then end-of-stream. -/
+theorem encode_command_is_map (src dst : Codec) (zs zd : Vegeta.Model.GobValue.Zone) (rs : List Result)
+    (hs : ∀ r ∈ rs, ReprFor src zs r) (hd : ∀ r ∈ rs, ReprFor dst zd (decodedBy src r)) :
+    ∃ inp out, encodeAllWith src zs rs = some inp ∧ (encodeCmd src dst zd inp).2 = true ∧
+      decodeWith dst (encodeCmd src dst zd inp).1 = (out, .eof) ∧
+      out = rs.map (decodedBy dst ∘ decodedBy src) ∧ equalAll out rs = true := by
+  obtain ⟨inp, h1, h2, h3⟩ := encodeCmd_complete src dst zs zd rs hs hd
+  exact ⟨inp, _, h1, h2, h3, rfl, equalAll_decodedBy src dst rs (fun r hr => aux_headersOK_for src zs r (hs r hr))⟩
+
+/-! non-vacuity -/
+example : exB.equal exA = true :=
+  equal_symmetric exA exB (by intro x hx; cases hx; decide) (by intro x hx; cases hx; decide)
+    (by intro x hx; cases hx; decide) (by intro x hx; cases hx; decide) (by decide)
+example : ∃ inp out, encodeAllWith .gob .utc [cmdExample] = some inp ∧ (encodeCmd .gob .csv .utc inp).2 = true ∧
+    decodeWith .csv (encodeCmd .gob .csv .utc inp).1 = (out, .eof) ∧
+    out = [cmdExample].map (decodedBy .csv ∘ decodedBy .gob) ∧ equalAll out [cmdExample] = true :=
+  encode_command_is_map .gob .csv .utc .utc [cmdExample]
+    (by intro r hr; simp at hr; subst hr; exact ⟨cmdExample_gob, trivial⟩)
+    (by intro r hr; simp at hr; subst hr; exact cmdExample_csv)
+
+end EqualLaws
 
 /-! ### Documented layout: obligations on the regenerated source facts
 
